@@ -33,6 +33,7 @@ var transTargets = []transTarget{
 	{"node/kafkaconsumer/kafkaconsumer.go", "KafkaConsumer", "processEvent", "", "kcProcessEvent"},
 	// C09
 	{"node/kafkaconsumer/kafkaconsumer.go", "KafkaConsumer", "revokePartitionAssignments", "", "kcRevoke"},
+	{"node/kafkaconsumer/recoveryconsumer.go", "RecoveryConsumer", "partitionAssignmentsChanged", "loop0", "changedBody"},
 	// C08
 	{"node/kafkaconsumer/recoverytracker.go", "", "min", "", "trackerMin"},
 	{"node/kafkaconsumer/recoverytracker.go", "", "max", "", "trackerMax"},
